@@ -182,6 +182,14 @@ func (f *g2lFn) call(b *binds, e *ast.CallExpr) string {
 		}
 		return t
 	}
+	if sel, ok := e.Fun.(*ast.SelectorExpr); ok {
+		// a call through a function-typed struct field: v.verify(msg, sig)
+		if s, ok := f.p.info.Selections[sel]; ok && s.Kind() == types.FieldVal {
+			if _, isSig := s.Type().Underlying().(*types.Signature); isSig {
+				return "(" + f.expr(b, sel) + " " + strings.Join(f.args(b, e), " ") + ")"
+			}
+		}
+	}
 	if id, ok := e.Fun.(*ast.Ident); ok {
 		if v, ok := f.p.info.Uses[id].(*types.Var); ok {
 			if _, isSig := v.Type().Underlying().(*types.Signature); isSig {
